@@ -137,8 +137,9 @@ let () = iter_lines (fun line ->
     let show c eob = Printf.sprintf "%s %s" (string_of_z eob) (String.concat "," (Stdlib.List.map string_of_z c)) in
     let ((c, eob), g') = Vp8InlineCoeffs.go_get_coeffs tp (z first) (z ctx) (z dq0) (z dq1) g in
     if kind = "coef" then
-      Printf.printf "I %s v%s r%s b%s\n" (show c eob) (string_of_z g'.Vp8GoReader.gr_value)
+      Printf.printf "I %s v%s r%s b%s%s\n" (show c eob) (string_of_z g'.Vp8GoReader.gr_value)
         (string_of_z g'.Vp8GoReader.gr_range) (string_of_z g'.Vp8GoReader.gr_bits)
+        (if g'.Vp8GoReader.gr_eof then " eof" else "")
     else begin
       let ((c2, eob2), _) = Vp8Syntax.decode_block tp (z first) (z ctx) (z dq0) (z dq1) d in
       Printf.printf "I %s S %s\n" (show c eob) (show c2 eob2)
